@@ -208,8 +208,20 @@ class LinalgShim:
     def __getattr__(self, n):
         return getattr(_real_np.linalg, n)
 
-    def norm(self, x, axis=None, **k):
+    def norm(self, x, ord=None, axis=None, **k):
         x = lift_arr(x)
+        if ord is not None and ord == _real_np.inf and axis is None:
+            ab = _map(x, lambda e: abs(_lift_scalar(e)))
+            if ab.ndim == 2:  # matrix infinity norm: maximal absolute row sum
+                rows = [sum(list(ab[i, 1:]), ab[i, 0]) for i in range(ab.shape[0])]
+            else:
+                rows = list(ab.ravel())
+            m = rows[0]
+            for r in rows[1:]:
+                m = _smax(m, r)
+            return m
+        if ord not in (None, 2, "fro"):
+            raise Inconclusive("linalg.norm with ord=%r" % (ord,))
         sq = (x * x.conjugate()).real.sum(axis=axis) if any(isinstance(e, SC) for e in x.ravel()) else (x * x).sum(axis=axis)
         if isinstance(sq, np.ndarray):
             return _map(sq, lambda e: SR.lift(e).sqrt())
@@ -340,6 +352,8 @@ class NPShim(types.ModuleType):
         return out
 
     def empty(self, shape, dtype=None, order="C", **kw):
+        if _kind(dtype) == "O":
+            return _real_np.empty(shape, dtype=object)  # None-filled, as in NumPy
         return self.zeros(shape, dtype=dtype)
 
     def ones(self, shape, dtype=None, order="C", **kw):
